@@ -126,6 +126,83 @@ pub fn block_on_workers<F: std::future::Future>(workers: usize, f: F) -> F::Outp
 	})
 }
 
+struct WakeFlag {
+	set: std::sync::Mutex<bool>,
+	cv: std::sync::Condvar,
+}
+
+impl std::task::Wake for WakeFlag {
+	fn wake(self: std::sync::Arc<Self>) {
+		self.wake_by_ref();
+	}
+	fn wake_by_ref(self: &std::sync::Arc<Self>) {
+		*self.set.lock().unwrap() = true;
+		self.cv.notify_all();
+	}
+}
+
+/// Like `block_on`, but the future is polled by hand with a waker of the harness, and a state
+/// from which it can never complete is recognised: the future is pending, its waker has not
+/// been invoked, and the runtime has no live task that could invoke it (the library crates
+/// under test use neither timers nor blocking pools nor threads of their own: `tokio::spawn`ed
+/// tasks are the only source of wake-ups). That state cannot change any more; it is observed
+/// 30 times 100 ms apart before it is reported (`Err`), to be safe against racy readings.
+pub fn block_on_detecting_deadlock<F: std::future::Future>(f: F) -> Result<F::Output, String> {
+	use std::task::{Context, Poll, Waker};
+	RT.with(|rt| {
+		let mut g = rt.borrow_mut();
+		if g.is_none() {
+			*g = Some(tokio::runtime::Builder::new_multi_thread().worker_threads(3).enable_all().build().expect("tokio runtime"));
+		}
+		let runtime = g.take().unwrap();
+		drop(g);
+		let out = {
+			let _enter = runtime.enter();
+			let metrics = runtime.metrics();
+			let flag = std::sync::Arc::new(WakeFlag { set: std::sync::Mutex::new(false), cv: std::sync::Condvar::new() });
+			let waker = Waker::from(std::sync::Arc::clone(&flag));
+			let mut cx = Context::from_waker(&waker);
+			let mut fut = Box::pin(f);
+			let mut quiet = 0u32;
+			let mut polls = 0u64;
+			loop {
+				*flag.set.lock().unwrap() = false;
+				polls += 1;
+				if let Poll::Ready(v) = fut.as_mut().poll(&mut cx) {
+					break Ok(v);
+				}
+				let mut woken = flag.set.lock().unwrap();
+				let stuck = loop {
+					if *woken {
+						quiet = 0;
+						break false;
+					}
+					let (g2, _) = flag.cv.wait_timeout(woken, std::time::Duration::from_millis(100)).unwrap();
+					woken = g2;
+					if *woken {
+						quiet = 0;
+						break false;
+					}
+					if metrics.num_alive_tasks() == 0 {
+						quiet += 1;
+					} else {
+						quiet = 0;
+					}
+					if quiet >= 30 {
+						break true;
+					}
+				};
+				drop(woken);
+				if stuck {
+					break Err(format!("the future is pending after {polls} polls, its waker was never invoked again and the runtime has no live task (observed 30 times over 3 s): it can never complete"));
+				}
+			}
+		};
+		*rt.borrow_mut() = Some(runtime);
+		out
+	})
+}
+
 /// Shut this thread's runtime down now. Runner threads call this before they exit: a runtime
 /// dropped by the thread-local destructor at thread exit may touch tokio's own (already
 /// destroyed) thread-locals, which panics below every catch frame and aborts the process.
